@@ -12,6 +12,8 @@
 #include <netinet/in.h>
 #include <stdint.h>
 
+#include "allocwrap.h"
+
 #define FN_DATA 0
 #define FN_EAGAIN 1
 #define FN_EINTR 2
@@ -76,7 +78,7 @@ fn_push(struct fn_list * L, int kind, long n, int err, long long at)
 {
 
 	if (L->a == NULL)
-		L->a = calloc(FN_MAXANS, sizeof(struct fn_ans));
+		L->a = __real_calloc(FN_MAXANS, sizeof(struct fn_ans));
 	if (L->n < FN_MAXANS) {
 		L->a[L->n].kind = kind; L->a[L->n].n = n; L->a[L->n].err = err; L->a[L->n].at = at; L->n++;
 	}
@@ -210,7 +212,7 @@ __wrap_send(int fd, const void * buf, size_t len, int flags)
 			if (F->capture) {
 				if (F->sentlen + (size_t)n > F->sentcap) {
 					F->sentcap = (F->sentlen + (size_t)n) * 2 + 4096;
-					F->sent = realloc(F->sent, F->sentcap);
+					F->sent = __real_realloc(F->sent, F->sentcap);
 				}
 				memcpy(F->sent + F->sentlen, buf, (size_t)n);
 				F->sentlen += (size_t)n;
@@ -242,7 +244,7 @@ __wrap_send(int fd, const void * buf, size_t len, int flags)
 struct fn_addrplan { int kind; long long t; };	/* kind: 'F','S','O','P','R','N','I' */
 static struct fn_addrplan fn_plan[64];
 static int fn_nplan;
-static int fn_sockfail_next;	/* the next socket() call fails */
+static int fn_attempt;		/* index of the address whose attempt comes next */
 static int fn_last_socket = -1;
 
 int __wrap_socket(int, int, int);
@@ -252,8 +254,8 @@ __wrap_socket(int domain, int type, int protocol)
 	int lfd;
 
 	(void)domain; (void)type; (void)protocol;
-	if (fn_sockfail_next) {
-		fn_sockfail_next = 0;
+	if (fn_attempt < fn_nplan && fn_plan[fn_attempt].kind == 'S') {
+		fn_attempt++;
 		vt_begin("socket"); vt_int("fd", -1); vt_end();
 		errno = EMFILE;
 		return (-1);
@@ -266,7 +268,6 @@ __wrap_socket(int domain, int type, int protocol)
 	return (fk_real(lfd));
 }
 
-static void (*fn_connect_hook)(int addr);	/* lets the driver arm "socket() fails" for the following address */
 
 int __wrap_connect(int, const struct sockaddr *, socklen_t);
 int
@@ -293,8 +294,7 @@ __wrap_connect(int fd, const struct sockaddr * sa, socklen_t salen)
 	}
 	vt_begin("connect_call"); vt_int("fd", lfd); vt_int("addr", addr); vt_int("ret", ret); vt_int("errno", e);
 	FK_CLOCK("c", fk_clock_us); vt_end();
-	if (fn_connect_hook != NULL)
-		fn_connect_hook(addr);
+	fn_attempt = addr + 1;
 	if (ret) errno = e;
 	return (ret);
 }
